@@ -95,6 +95,28 @@ func exactUnit(r *run.Rng) float32 {
 	}
 }
 
+// exactReal returns a number-register value that survives its encoding
+// exactly: mostly a value in [0,1] (exactUnit), otherwise an integer of either
+// sign up to 40000 (1- and 2-byte natural forms and beyond), a multiple of 1/64
+// (coordinate forms) or a float32 with its two low bits clear (4-byte form).
+func exactReal(r *run.Rng) float32 {
+	switch r.Intn(6) {
+	case 0:
+		return float32(r.Range(-40000, 40000))
+	case 1:
+		return float32(r.Pick(-129, -128, -127, -100, -65, -64, -63, -1, 63, 64, 127, 128, 129, 8191, 8192, 16383, 16384, -8192, -8193))
+	case 2:
+		return gen.Grid64(r)
+	case 3:
+		f := math.Float32frombits(math.Float32bits(float32(r.Uniform(-300, 300))) &^ 3)
+		if f >= 0 && f < 1 {
+			return exactUnit(r)
+		}
+		return f
+	}
+	return exactUnit(r)
+}
+
 // c07History generates a history.
 func c07History(c *run.Ctx, r *run.Rng, exact bool) (vb ivg.ViewBox, pal [64]color.RGBA, acts []act7, interesting bool) {
 	vb = ivg.DefaultViewBox
@@ -117,7 +139,7 @@ func c07History(c *run.Ctx, r *run.Rng, exact bool) (vb ivg.ViewBox, pal [64]col
 		}
 		return 0
 	}
-	o := gen.Opts{Coord: coord, RegNum: exactUnit, Angle: angle}
+	o := gen.Opts{Coord: coord, RegNum: exactReal, Angle: angle}
 	// In family 'helpers' gradient paints come from the helpers only: a PRNG
 	// gradient value could otherwise use a helper's (inexact) matrix registers
 	// as stop offsets, whose validity is a discontinuous decision.
